@@ -42,12 +42,14 @@ def _short(f: FuncInfo) -> str:
     return f.qn.split("::", 1)[1]
 
 
-def rule_nodrop(repo: Repo, rid: str, modules, floor: int, only: Optional[Set[str]] = None) -> RuleResult:
+def rule_nodrop(repo: Repo, rid: str, modules, floor: int, only: Optional[Set[str]] = None, anchors: Optional[List[str]] = None) -> RuleResult:
+    """units = L.roots(modules): public functions with their private helpers in place.  `anchors`: public functions that must each
+    contribute a handler (a rule that finds no handler at all would pass vacuously)."""
     r = RuleResult(rid, "every parsed node is consumed (flows into a call / store) or rejected (raise) on every path of its handler",
                    "a construct the library cannot represent raises an error; it is never dropped")
-    mods = [repo.module(m) for m in modules]
-    for f in repo.all_funcs():
-        if f.mod not in mods or _short(f) in NODROP_EXCLUDED:
+    seen_anchor: Set[str] = set()
+    for f in L.roots(repo, modules):
+        if _short(f) in NODROP_EXCLUDED:
             continue
         if only is not None and _short(f) not in only:
             continue
@@ -55,22 +57,31 @@ def rule_nodrop(repo: Repo, rid: str, modules, floor: int, only: Optional[Set[st
         loops = D.node_loops(f)
         for loop, var in loops:
             handlers.append((f"loop over {unparse(loop.iter, 40)}", loop.body, var, loop))
-        loopvars = {v for _, v in loops}
         if not loops:
             for pn in D.node_functions(f, min_tests=1):
                 handlers.append((f"parameter {pn}", f.node.body, pn, f.node))
+        loop_nodes = [lp for lp, _v in loops]
+        for label, stmts, name in D.inlined_handlers(f):
+            # a helper body that lies inside a handler loop is covered by the paths of that loop
+            if any(any(st is x for x in ast.walk(lp)) for lp in loop_nodes for st in stmts[:1]):
+                continue
+            handlers.append((f"helper {label}", stmts, name, stmts[0] if stmts else f.node))
         for label, body, var, anchor in handlers:
             r.site(f"{f.qn} [{label}]")
+            seen_anchor.add(_short(f))
             n, bad = D.silent_drop_paths(body, {var})
             if not bad:
                 r.ok({"handler": f"{f.qn} [{label}]", "paths": n, "silent_drop_paths": 0})
                 continue
             kinds = sorted({b.end_kind for b in bad})
             b0 = bad[0]
-            r.fail(Finding(rid, f, f"drop:{var}", f"{len(bad)} of {n} paths through the handler of `{var}` neither use nor reject the node "
+            r.fail(Finding(rid, f, "drop:node", f"{len(bad)} of {n} paths through the handler of `{unparse(ast.Name(id=var, ctx=ast.Load()))}` neither use nor reject the node "
                            f"(path ends with {kinds}; decisions: {' ; '.join(b0.decisions[-3:])})", node=b0.end_stmt or anchor),
                    {"handler": f"{f.qn} [{label}]", "paths": n, "silent_drop_paths": len(bad)})
-    r.require_sites(floor)
+    missing = [a for a in (anchors or []) if a not in seen_anchor]
+    if missing:
+        raise AnalysisError(f"rule {rid}: no node handler (loop / function testing node[0]) found in {missing} -- the anchors this rule needs have vanished")
+    r.require_sites(min(floor, len(anchors)) if anchors else floor)
     return r
 
 
@@ -85,16 +96,73 @@ def _strip_sites(f: FuncInfo):
             par = pm.get(n)
             if isinstance(par, ast.Call) and isinstance(par.func, ast.Name) and par.func.id == "len":
                 continue
-            out.append((n, ast.unparse(n.value)))
+            if isinstance(par, (ast.Assign, ast.AnnAssign)) and par.value is n:
+                tgt = par.targets[0] if isinstance(par, ast.Assign) and len(par.targets) == 1 else getattr(par, "target", None)
+                if isinstance(tgt, ast.Name):
+                    # the stripped list is only named here; it is passed on where the name is used
+                    g = C.cfg_of(f.node)
+                    rd = L.rd_of(f)
+                    d = g.node_of(par)
+                    uses = []
+                    for u in ast.walk(f.node):
+                        if isinstance(u, ast.Name) and u.id == tgt.id and isinstance(u.ctx, ast.Load):
+                            un = g.node_containing(u)
+                            pu = pm.get(u)
+                            if isinstance(pu, ast.Call) and isinstance(pu.func, ast.Name) and pu.func.id == "len":
+                                continue
+                            if un is not None and d in rd.defs_reaching(un, u.id):
+                                uses.append(u)
+                    for u in uses:
+                        out.append((u, ast.unparse(n.value), n, d))
+                    continue
+            out.append((n, ast.unparse(n.value), n, None))
     return out
 
 
-def _head_atom_matcher(repo: Repo, f: FuncInfo, xsrc: str):
-    """atoms for tests on <X>[0]; returns (matcher, {atom: kind}) kind = 'eq' | 'in'"""
-    kinds: Dict[str, str] = {}
+def _copy_classes(f: FuncInfo) -> Dict[str, Set[str]]:
+    """names connected by plain copies `a = b` (parameter bindings of helpers analysed in place, renamed locals)"""
+    cls: Dict[str, Set[str]] = {}
+    for n in ast.walk(f.node):
+        if isinstance(n, (ast.Assign, ast.AnnAssign)) and isinstance(n.value, ast.Name):
+            tgts = n.targets if isinstance(n, ast.Assign) else [n.target]
+            for t in tgts:
+                if isinstance(t, ast.Name):
+                    a, b = cls.setdefault(t.id, {t.id}), cls.setdefault(n.value.id, {n.value.id})
+                    u = a | b
+                    for x in u:
+                        cls[x] = u
+    return cls
+
+
+def _same_list(classes: Dict[str, Set[str]], src: str) -> Set[str]:
+    """source texts that denote the same parsed list as `src`"""
+    if src in classes:
+        return set(classes[src])
+    return {src}
+
+
+def _head_predicates(f: FuncInfo, xsrc: str):
+    classes = _copy_classes(f)
+    same = _same_list(classes, xsrc)
+    aliases: Set[str] = set()
+    for x in same:
+        aliases |= D.head_aliases(f.node, x)
+    # copies of the aliases
+    for a in list(aliases):
+        aliases |= classes.get(a, set())
 
     def is_head(e):
-        return isinstance(e, ast.Subscript) and isinstance(e.slice, ast.Constant) and e.slice.value == 0 and ast.unparse(e.value) == xsrc
+        if isinstance(e, ast.Name) and e.id in aliases:
+            return True
+        return isinstance(e, ast.Subscript) and isinstance(e.slice, ast.Constant) and e.slice.value == 0 and ast.unparse(e.value) in same
+
+    return is_head, same, aliases
+
+
+def _head_atom_matcher(repo: Repo, f: FuncInfo, xsrc: str):
+    """atoms for tests on <X>[0] (or a local alias of it); returns (matcher, {atom: kind}) kind = 'eq' | 'in'"""
+    kinds: Dict[str, str] = {}
+    is_head, _same, _al = _head_predicates(f, xsrc)
 
     def m(e):
         if isinstance(e, ast.Compare) and len(e.ops) == 1:
@@ -116,24 +184,10 @@ def _head_atom_matcher(repo: Repo, f: FuncInfo, xsrc: str):
 
 def _head_used_as_data(f: FuncInfo, xsrc: str) -> bool:
     """X[0] (or a local alias of it) is passed to a non-logging call, stored, used as a lookup key or returned"""
-    aliases = set()
-    for n in ast.walk(f.node):
-        if isinstance(n, ast.Assign) and isinstance(n.value, (ast.Subscript, ast.Call)):
-            v = n.value
-            if isinstance(v, ast.Call) and isinstance(v.func, ast.Attribute) and v.func.attr in ("lower", "strip"):
-                v = v.func.value
-            if isinstance(v, ast.Subscript) and isinstance(v.slice, ast.Constant) and v.slice.value == 0 and ast.unparse(v.value) == xsrc:
-                for t in n.targets:
-                    aliases |= C.target_names(t)
-
-    def is_head(e):
-        if isinstance(e, ast.Name) and e.id in aliases:
-            return True
-        return isinstance(e, ast.Subscript) and isinstance(e.slice, ast.Constant) and e.slice.value == 0 and ast.unparse(e.value) == xsrc
-
+    is_head, _same, _al = _head_predicates(f, xsrc)
     pm = parent_map(f.node)
     for n in ast.walk(f.node):
-        if is_head(n):
+        if is_head(n) and not (isinstance(n, ast.Name) and isinstance(n.ctx, ast.Store)):
             par = pm.get(n)
             while (isinstance(par, ast.Attribute) and par.value is n) or (isinstance(par, ast.Call) and par.func is n):
                 n, par = par, pm.get(par)
@@ -148,7 +202,7 @@ def _head_used_as_data(f: FuncInfo, xsrc: str) -> bool:
                 return True  # lookup key
             if isinstance(par, ast.Assign) and par.value is n and any(isinstance(t, (ast.Attribute, ast.Subscript)) for t in par.targets):
                 return True
-            if isinstance(par, (ast.Return, ast.Tuple, ast.List, ast.FormattedValue)) and not isinstance(par, ast.FormattedValue):
+            if isinstance(par, (ast.Return, ast.Tuple, ast.List)):
                 return True
     return False
 
@@ -156,31 +210,33 @@ def _head_used_as_data(f: FuncInfo, xsrc: str) -> bool:
 def rule_headstrip(repo: Repo, rid: str, modules, floor: int) -> RuleResult:
     r = RuleResult(rid, "wherever X[1:] of a parsed list is passed on, the head X[0] is pinned by a dominating test or used as data",
                    "a formula is never re-shaped: a stripped head that was not checked changes what the text denotes")
-    mods = [repo.module(m) for m in modules]
-    for f in repo.all_funcs():
-        if f.mod not in mods:
-            continue
+    for f in L.roots(repo, modules):
         g = C.cfg_of(f.node)
-        p = L.prov(repo, f)
-        for node, xsrc in _strip_sites(f):
+        for node, xsrc, strip, defnode in _strip_sites(f):
             matcher, kinds = _head_atom_matcher(repo, f, xsrc)
             G = L.Guards(f, matcher)
             site_node = g.node_containing(node)
             if site_node is None:
                 continue
-            r.site(L.site(f, node, "head strip"))
+            r.site(L.site(f, strip, "head strip"))
             atoms = sorted(G.atoms_seen)
             # nodes that re-bind X to a literal list with a constant head (e.g. X = ["and", X])
             rebinds = []
-            if isinstance(node.value, ast.Name):
+            if isinstance(strip.value, ast.Name):
                 for n in g.nodes():
                     st = g.stmt[n]
-                    if isinstance(st, ast.Assign) and any(isinstance(t, ast.Name) and t.id == node.value.id for t in st.targets) \
+                    if isinstance(st, ast.Assign) and any(isinstance(t, ast.Name) and t.id == strip.value.id for t in st.targets) \
                             and isinstance(st.value, ast.List) and st.value.elts and isinstance(st.value.elts[0], ast.Constant):
                         rebinds.append(n)
             v0 = {a: False for a in atoms}
-            reach0 = G.reach(v0, avoid=rebinds)
-            pinned = site_node not in reach0
+
+            def reaches(val, avoid=()):
+                seen = G.reach(val, avoid)
+                if defnode is not None and defnode not in seen:
+                    return False        # the definition `name = X[1:]` is not executed under this valuation
+                return G.reaches_expr(val, node, seen=seen)
+
+            pinned = not reaches(v0, rebinds)
             carried = _head_used_as_data(f, xsrc)
             if pinned:
                 # which positive tests admit the site?  membership in a multi-valued table needs the head carried as data
@@ -188,24 +244,24 @@ def rule_headstrip(repo: Repo, rid: str, modules, floor: int) -> RuleResult:
                 for a in atoms:
                     va = dict(v0)
                     va[a] = True
-                    if site_node in G.reach(va):
+                    if reaches(va):
                         admits.append(a)
                 multi = []
                 for a in admits:
                     if kinds.get(a) == "in":
                         ok, val = repo.const_value(f.mod.name, a[3:]) if a[3:].isidentifier() else (False, None)
-                        if not ok or (isinstance(val, list) and len(val) > 1):
+                        if not ok or (isinstance(val, (list, tuple)) and len(val) > 1):
                             multi.append(a)
                 if multi and not carried:
-                    r.fail(Finding(rid, f, f"head-not-carried:{xsrc}", f"{unparse(node)} is passed on under the multi-valued test {multi} but "
-                                   f"{xsrc}[0] is not kept as data: the operator is lost", node=node))
+                    r.fail(Finding(rid, f, "head-not-carried", f"{unparse(strip)} is passed on under the multi-valued test {multi} but "
+                                   f"{unparse(strip.value)}[0] is not kept as data: the operator is lost", node=node))
                 else:
                     r.ok({"site": L.site(f, node), "pinned_by": admits or (["rebinding to a constant head"] if rebinds else ["negative test + raise"]),
                           "carried": carried})
             elif carried:
                 r.ok({"site": L.site(f, node), "pinned_by": [], "carried": True})
             else:
-                r.fail(Finding(rid, f, f"head-stripped:{xsrc}", f"{unparse(node)} is passed on although {xsrc}[0] is neither pinned by a dominating test "
+                r.fail(Finding(rid, f, "head-stripped", f"{unparse(strip)} is passed on although {unparse(strip.value)}[0] is neither pinned by a dominating test "
                                f"(with all head tests {atoms} false the site is still reachable) nor used as data: "
                                f"a body such as (p ?x) or (not (p ?x)) silently loses its head", node=node))
     r.require_sites(floor)
@@ -217,30 +273,42 @@ def rule_polarity(repo: Repo, rid: str = "C01.polarity") -> RuleResult:
     r = RuleResult(rid, "under (not X) literals are built from the inner node with is_positive=False and '=' is an inequality; otherwise positive / equality",
                    "a literal is never negated or un-negated silently")
     pup = repo.func("lisp_parsers.parsing_utils::parse_untyped_predicate")
-    for modsfx in PARSER_MODS:
-        mod = repo.module(modsfx)
-        for f in [x for x in repo.all_funcs() if x.mod is mod]:
+    ok_not, not_value = repo.const_value(repo.module("lisp_parsers.parsing_utils").name, "NOT_OPERATOR")
+    not_value = not_value if ok_not else "not"
+
+    def is_not_const(e) -> bool:
+        return (isinstance(e, ast.Name) and e.id == "NOT_OPERATOR") or (isinstance(e, ast.Constant) and e.value == not_value)
+
+    if True:
+        for f in L.roots(repo, PARSER_MODS):
             calls = [c for c in L.calls_in(f.node) if callee_name(c) == "parse_untyped_predicate"]
             adds = [c for c in L.calls_in(f.node) if isinstance(c.func, ast.Attribute) and c.func.attr == "add" and isinstance(c.func.value, ast.Attribute)
                     and c.func.value.attr in ("equality_preconditions", "inequality_preconditions")]
             if not calls and not adds:
                 continue
-            # the node variable compared with NOT_OPERATOR
+            # heads: X[0] or a local alias of it (head = X[0])
+            head_alias: Set[str] = set()
+            for n in ast.walk(f.node):
+                if isinstance(n, (ast.Assign, ast.AnnAssign)) and n.value is not None and L.subscript0_of(n.value) is not None:
+                    for t in (n.targets if isinstance(n, ast.Assign) else [n.target]):
+                        if isinstance(t, ast.Name):
+                            head_alias.add(t.id)
+
+            def is_head(e) -> bool:
+                return L.subscript0_of(e) is not None or (isinstance(e, ast.Name) and e.id in head_alias)
+
             nvars = set()
             for n in ast.walk(f.node):
-                if isinstance(n, ast.Compare) and len(n.ops) == 1 and isinstance(n.ops[0], (ast.Eq, ast.NotEq)) and \
-                        isinstance(n.comparators[0], ast.Name) and n.comparators[0].id == "NOT_OPERATOR":
-                    h = L.subscript0_of(n.left)
-                    if h is not None:
-                        nvars.add(ast.unparse(h))
+                if isinstance(n, ast.Compare) and len(n.ops) == 1 and isinstance(n.ops[0], (ast.Eq, ast.NotEq)):
+                    l, rr = n.left, n.comparators[0]
+                    if (is_head(l) and is_not_const(rr)) or (is_head(rr) and is_not_const(l)):
+                        nvars.add(id(n))
             p = L.prov(repo, f)
             g = C.cfg_of(f.node)
 
             def matcher(e):
-                if isinstance(e, ast.Compare) and len(e.ops) == 1 and isinstance(e.comparators[0], ast.Name):
-                    h = L.subscript0_of(e.left)
-                    if h is not None and e.comparators[0].id == "NOT_OPERATOR" and ast.unparse(h) in nvars:
-                        return "not" if isinstance(e.ops[0], ast.Eq) else "!not"
+                if id(e) in nvars:
+                    return "not" if isinstance(e.ops[0], ast.Eq) else "!not"
                 return None
 
             G = L.Guards(f, matcher)
@@ -301,31 +369,122 @@ def rule_polarity(repo: Repo, rid: str = "C01.polarity") -> RuleResult:
 
 
 # --------------------------------------------------------------------------- sections
-def _arms_by_constant(f: FuncInfo, var_src: str) -> Dict[str, List[ast.stmt]]:
-    """{head constant: body statements} for `if <var>[0] == "c"` / `<var> == "c"` chains (elif included)"""
-    arms: Dict[str, List[ast.stmt]] = {}
-    for n in ast.walk(f.node):
-        if isinstance(n, ast.If):
-            tests = [n.test] if not isinstance(n.test, ast.BoolOp) else list(n.test.values)
-            for t in tests:
-                if isinstance(t, ast.Compare) and len(t.ops) == 1 and isinstance(t.ops[0], ast.Eq) and isinstance(t.comparators[0], ast.Constant):
-                    lhs = ast.unparse(t.left)
-                    if lhs in (var_src, var_src + "[0]"):
-                        arms.setdefault(t.comparators[0].value, []).extend(n.body)
-    return arms
+class ConstDispatch:
+    """tests of the head of a loop element (X[0], a local alias `head = X[0]`, or the element itself for a token loop) against string
+    constants, decided together for a given head value (constant valuation): whatever shape the dispatch has (if/elif, `continue`
+    chains, tuple membership, module constants), the statements executed for head c are those reachable when every test has the
+    value it has for c."""
+
+    def __init__(self, repo: Repo, f: FuncInfo, loop: ast.For):
+        self.repo, self.f, self.loop = repo, f, loop
+        var = loop.target.id if isinstance(loop.target, ast.Name) else None
+        classes = _copy_classes(f)
+        same = _same_list(classes, var) if var else set()
+        aliases: Set[str] = set()
+        for x in same:
+            aliases |= D.head_aliases(loop, x)
+        for a in list(aliases):
+            aliases |= classes.get(a, set())
+        self.tests: Dict[int, Tuple[str, List[object]]] = {}
+
+        def is_head(e):
+            if isinstance(e, ast.Name) and (e.id in aliases or e.id in same):
+                return True
+            return isinstance(e, ast.Subscript) and isinstance(e.slice, ast.Constant) and e.slice.value == 0 and ast.unparse(e.value) in same
+
+        def consts_of(e):
+            if isinstance(e, ast.Constant) and isinstance(e.value, str):
+                return [e.value]
+            if isinstance(e, (ast.Tuple, ast.List, ast.Set)):
+                out = []
+                for x in e.elts:
+                    c = consts_of(x)
+                    if c is None:
+                        return None
+                    out += c
+                return out
+            if isinstance(e, ast.Name):
+                ok, v = repo.const_value(f.mod.name, e.id)
+                if ok and isinstance(v, str):
+                    return [v]
+                if ok and isinstance(v, (list, tuple)) and all(isinstance(x, str) for x in v):
+                    return list(v)
+            return None
+
+        for n in ast.walk(loop):
+            if isinstance(n, ast.Compare) and len(n.ops) == 1:
+                l, rr, op = n.left, n.comparators[0], n.ops[0]
+                if isinstance(op, (ast.Eq, ast.NotEq)):
+                    side = rr if is_head(l) else (l if is_head(rr) else None)
+                    cs = consts_of(side) if side is not None else None
+                    if cs is not None and len(cs) == 1 and isinstance(side, (ast.Constant, ast.Name)):
+                        self.tests[id(n)] = ("eq" if isinstance(op, ast.Eq) else "ne", cs)
+                elif isinstance(op, (ast.In, ast.NotIn)) and is_head(l):
+                    cs = consts_of(rr)
+                    if cs is not None:
+                        self.tests[id(n)] = ("in" if isinstance(op, ast.In) else "notin", cs)
+        self.G = L.Guards(f, lambda e: f"k{id(e)}" if id(e) in self.tests else None)
+        self.g = self.G.g
+        self.inside = set()
+        for x in ast.walk(loop):
+            if isinstance(x, ast.stmt) and x is not loop:
+                n = self.g.node_of(x)
+                if n is not None:
+                    self.inside.add(n)
+
+    def constants(self) -> List[str]:
+        out: List[str] = []
+        for _k, cs in self.tests.values():
+            for c in cs:
+                if c not in out:
+                    out.append(c)
+        return out
+
+    def valuation(self, c: str) -> Dict[str, bool]:
+        v = {}
+        for i, (kind, cs) in self.tests.items():
+            hit = c in cs
+            v[f"k{i}"] = hit if kind in ("eq", "in") else (not hit)
+        return v
+
+    def mentioned(self, c: str) -> bool:
+        return any(c in cs for _k, cs in self.tests.values())
+
+    def statements(self, c: str) -> List[ast.stmt]:
+        """simple statements (and headers of compound ones, wrapped) executed in the loop body when the head is c"""
+        seen = self.G.reach(self.valuation(c)) & self.inside
+        out: List[ast.stmt] = []
+        for n in sorted(seen):
+            st = self.g.stmt[n]
+            if isinstance(st, (ast.If, ast.For, ast.While, ast.With, ast.Try)):
+                h = C.header(st)
+                if h is not None:
+                    out.append(ast.copy_location(ast.Expr(value=h), st))
+            elif isinstance(st, ast.stmt):
+                out.append(st)
+        return out
+
+
+def _arms_by_constant(f: FuncInfo, var_src: str, repo: Optional[Repo] = None, loop: Optional[ast.For] = None) -> Dict[str, List[ast.stmt]]:
+    """{head constant: statements executed for it} of the dispatch on the elements of `loop`"""
+    if repo is None or loop is None:
+        raise AnalysisError("_arms_by_constant needs the repository and the loop")
+    d = ConstDispatch(repo, f, loop)
+    return {c: d.statements(c) for c in d.constants()}
 
 
 def rule_sections(repo: Repo, rid: str = "C01.sections") -> RuleResult:
     r = RuleResult(rid, "parse_domain has an arm for every PDDL 2.1 level-2 section storing into the matching Domain field; parse_action for every action part",
                    "the parsed domain declares exactly the source's types, constants, predicates, functions and action schemas")
-    f = repo.func("DomainParser.parse_domain")
+    f = L.fn(repo, "DomainParser.parse_domain")
     want = {"domain": "name", ":requirements": "requirements", ":types": "types", ":constants": "constants",
             ":predicates": "predicates", ":functions": "functions", ":action": "actions"}
     loops = [n for n in ast.walk(f.node) if isinstance(n, ast.For) and isinstance(n.target, ast.Name)]
     if not loops:
         raise AnalysisError("parse_domain: section loop not found")
+    loops = [lp for lp in loops if ConstDispatch(repo, f, lp).mentioned(":action")] or loops
     var = loops[0].target.id
-    arms = _arms_by_constant(f, var)
+    arms = _arms_by_constant(f, var, repo, loops[0])
     p = L.prov(repo, f)
     parser_of = {":types": "parse_types", ":constants": "parse_constants", ":predicates": "parse_predicates", ":functions": "parse_functions",
                  ":action": "parse_action"}
@@ -361,12 +520,13 @@ def rule_sections(repo: Repo, rid: str = "C01.sections") -> RuleResult:
     else:
         r.fail(Finding(rid, f, "loop-source", f"the section loop iterates {unparse(loops[0].iter)}"))
     # parse_action parts
-    a = repo.func("DomainParser.parse_action")
+    a = L.fn(repo, "DomainParser.parse_action")
     aloops = [n for n in ast.walk(a.node) if isinstance(n, ast.For) and isinstance(n.target, ast.Name)]
+    aloops = [lp for lp in aloops if ConstDispatch(repo, a, lp).mentioned(":parameters")]
     if not aloops:
         raise AnalysisError("parse_action: part loop not found")
     avar = aloops[0].target.id
-    aarms = _arms_by_constant(a, avar)
+    aarms = _arms_by_constant(a, avar, repo, aloops[0])
     wanted = {":parameters": "parse_signature", ":precondition": "parse_preconditions", ":effect": "parse_effects"}
     for part, callee in wanted.items():
         r.site(f"{a.qn} [{part}]")
@@ -387,18 +547,24 @@ def rule_sections(repo: Repo, rid: str = "C01.sections") -> RuleResult:
 def rule_arity(repo: Repo, rid: str = "C01.arity") -> RuleResult:
     r = RuleResult(rid, "operands read by fixed position are protected by a length test that raises",
                    "n-ary arithmetic is rejected, not truncated")
-    f = repo.func("models.numerical_expression::construct_expression_tree")
+    f = L.fn(repo, "models.numerical_expression::construct_expression_tree")
     g = C.cfg_of(f.node)
     dom = C.dominators(g)
-    param = f.params[0]
-    reads = [n for n in ast.walk(f.node) if isinstance(n, ast.Subscript) and isinstance(n.value, ast.Name) and n.value.id == param
-             and isinstance(n.slice, ast.Constant) and isinstance(n.slice.value, int) and n.slice.value >= 2]
+    classes = _copy_classes(f)
+    same = _same_list(classes, f.params[0])
+    reads = [n for n in ast.walk(f.node) if isinstance(n, ast.Subscript) and isinstance(n.value, ast.Name) and n.value.id in same
+             and isinstance(n.slice, ast.Constant) and isinstance(n.slice.value, int) and n.slice.value >= 2 and isinstance(n.ctx, ast.Load)]
+    unpacks = [n for n in ast.walk(f.node) if isinstance(n, ast.Assign) and isinstance(n.value, ast.Name) and n.value.id in same
+               and isinstance(n.targets[0], (ast.Tuple, ast.List)) and not any(isinstance(e, ast.Starred) for e in n.targets[0].elts)]
     guards = []
     for n in g.nodes():
         st = g.stmt[n]
         if isinstance(st, ast.If) and any(isinstance(x, ast.Call) and callee_name(x) == "len" and x.args and isinstance(x.args[0], ast.Name)
-                                          and x.args[0].id == param for x in ast.walk(st.test)):
-            if any(isinstance(s, ast.Raise) for s in C.stmts_in(st.body)) or any(isinstance(s, ast.Raise) for s in C.stmts_in(st.orelse)):
+                                          and x.args[0].id in same for x in ast.walk(st.test)):
+            # the test must lead to a raise on one side
+            t = C.reach_under(g, lambda e, st=st: True if e is st.test else None, start=n)
+            e_ = C.reach_under(g, lambda e, st=st: False if e is st.test else None, start=n)
+            if any(g.kind[x] == "raise" for x in t - e_) or any(g.kind[x] == "raise" for x in e_ - t):
                 guards.append(n)
     for rd in reads:
         r.site(L.site(f, rd, "positional operand"))
@@ -406,9 +572,14 @@ def rule_arity(repo: Repo, rid: str = "C01.arity") -> RuleResult:
         if n is not None and (dom[n] & set(guards)):
             r.ok({"read": unparse(rd), "guarded_by_length_test": True})
         else:
-            r.fail(Finding(rid, f, f"arity:{unparse(rd)}", f"{unparse(rd)} is read by position without a dominating len({param}) test that raises: "
+            r.fail(Finding(rid, f, f"arity:[{rd.slice.value}]", f"{unparse(rd)} is read by position without a dominating len(..) test that raises: "
                            f"(+ a b c) silently loses c", node=rd))
-    r.require_sites(2)
+    for u in unpacks:
+        r.site(L.site(f, u, "operands unpacked"))
+        r.ok({"unpack": unparse(u, 60), "arity_enforced_by": f"unpacking into {len(u.targets[0].elts)} names raises on any other length"})
+    if not reads and not unpacks:
+        raise AnalysisError("construct_expression_tree: neither positional operand reads nor an unpacking of the expression list were found")
+    r.require_sites(1)
     return r
 
 
@@ -494,7 +665,7 @@ def rule_leftover(repo: Repo, rid: str, specs: List[str]) -> RuleResult:
     r = RuleResult(rid, "dash-grouped typed-list readers flush (or reject) the trailing group that has no '- type' suffix",
                    "the parsed declarations are exactly the declared names")
     for spec in specs:
-        f = repo.func(spec)
+        f = L.fn(repo, spec)
         g = C.cfg_of(f.node)
         # accumulator: a local list that receives tokens with .append inside the main loop
         accs = {}
@@ -522,10 +693,12 @@ def rule_leftover(repo: Repo, rid: str, specs: List[str]) -> RuleResult:
                 h = C.header(st)
                 if h is None:
                     continue
+                names = L.aliases(f, {acc})
                 for x in ast.walk(h):
-                    if isinstance(x, ast.Name) and x.id == acc:
-                        # a use in a store / call / raise-guard, not merely a re-initialisation
-                        if not (isinstance(st, ast.Assign) and any(isinstance(t, ast.Name) and t.id == acc for t in st.targets)):
+                    if isinstance(x, ast.Name) and x.id in names and isinstance(x.ctx, ast.Load):
+                        # a use in a store / call / raise-guard, not merely a re-initialisation or a plain copy
+                        if not (isinstance(st, (ast.Assign, ast.AnnAssign)) and isinstance(st.value, ast.Name) and st.value.id in names) and \
+                                not (isinstance(st, ast.Assign) and any(isinstance(t, ast.Name) and t.id == acc for t in st.targets)):
                             use_nodes.add(n)
             # every way out of the function after the loop passes a use of the accumulator (flush or rejection)
             dom = C.dominators(g)
@@ -550,7 +723,7 @@ def rule_typedlist(repo: Repo, rid: str, specs: List[str], lookup_required: bool
     r = RuleResult(rid, "typed lists: each group 'n1 n2 - t' gives all its names the type t (unknown t rejected), then the group is reset",
                    "names, parameter order and parameter types of the declarations")
     for spec in specs:
-        f = repo.func(spec)
+        f = L.fn(repo, spec)
         g = C.cfg_of(f.node)
         p = L.prov(repo, f)
         accs = {}
@@ -566,6 +739,7 @@ def rule_typedlist(repo: Repo, rid: str, specs: List[str], lookup_required: bool
             while g.loop_of.get(top) is not None:
                 top = g.loop_of[top]
             inloop = C.reachable_from(g, top, follow=lambda a, b, l: not (a == top and l == "done")) - {top}
+            names = L.aliases(f, {acc})
             # flush nodes: statements inside the loop that read the accumulator (other than the append / a re-initialisation)
             flush, resets = [], []
             for n in inloop:
@@ -577,9 +751,11 @@ def rule_typedlist(repo: Repo, rid: str, specs: List[str], lookup_required: bool
                     if isinstance(st.value, (ast.List, ast.Call)) and not any(isinstance(x, ast.Name) and x.id == acc for x in ast.walk(st.value)):
                         resets.append(n)
                     continue
-                if h is not None and any(isinstance(x, ast.Name) and x.id == acc for x in ast.walk(h)):
+                if h is not None and any(isinstance(x, ast.Name) and x.id in names and isinstance(x.ctx, ast.Load) for x in ast.walk(h)):
                     if g.node_containing(app) == n:
                         continue
+                    if isinstance(st, (ast.Assign, ast.AnnAssign)) and isinstance(st.value, ast.Name) and st.value.id in names:
+                        continue  # a plain copy (parameter binding of a helper analysed in place)
                     if isinstance(st, (ast.If, ast.Assert)) and not any(isinstance(x, (ast.Call,)) and isinstance(x.func, ast.Attribute) and x.func.attr in ("update", "add", "append") for x in ast.walk(h)):
                         continue  # a validation of the group (e.g. every name starts with '?')
                     flush.append(n)
@@ -638,7 +814,7 @@ def rule_typedlist(repo: Repo, rid: str, specs: List[str], lookup_required: bool
 def rules(repo: Repo, tier: str) -> List[RuleResult]:
     return [
         rule_typedlist(repo, "C01.typedlist", ["lisp_parsers.parsing_utils::parse_signature", "DomainParser.parse_constants"]),
-        rule_nodrop(repo, "C01.nodrop", PARSER_MODS, 4),
+        rule_nodrop(repo, "C01.nodrop", PARSER_MODS, 2, anchors=["EffectsParser.parse", "PreconditionsParser.parse"]),
         rule_headstrip(repo, "C01.headstrip", ("lisp_parsers.domain_parser", "lisp_parsers.preconditions_parser", "lisp_parsers.effects_parser"), 6),
         rule_polarity(repo),
         rule_sections(repo),
